@@ -131,6 +131,9 @@ def concretize(m, v):
     if isinstance(v, XStr):
         return v.concretize(m)
     from . import ext as _ext
+    if isinstance(v, _ext.AbsLine):
+        k = ev(v.kind()).as_long()
+        return {0: ' \n', 1: '% a comment line\n'}.get(k, '[Event "x"]\n')
     if isinstance(v, _ext.SExt):
         return _ext.SExt(v.kind, {k: concretize(m, x) for k, x in v.fields.items()})
     if isinstance(v, _ext.SBytes):
